@@ -2703,6 +2703,15 @@ class Session(_SessionClassMethods, EventTarget):
         """
 
         all_states = self.identity_map.all_states() + list(self._new)
+        if self._transaction is not None:
+            # objects in the "deleted" state are referred to by the
+            # transaction snapshot only; detach them as well
+            for trans in self._transaction._iterate_self_and_parents():
+                all_states.extend(
+                    s
+                    for s in list(trans._deleted)
+                    if s._deleted and s.session_id == self.hash_key
+                )
         self.identity_map._kill()
         self.identity_map = identity._WeakInstanceDict()
         self._new = {}
